@@ -791,10 +791,11 @@ class spawn(SpawnBase):
             p.interact()
         '''
 
-        # Flush the buffer.
-        self.write_to_stdout(self.buffer)
+        # Flush the pending output: all of it (the search buffer may have been
+        # trimmed by an earlier search that found nothing), and once only.
+        self.write_to_stdout(self._before.getvalue())
         self.stdout.flush()
-        self._buffer = self.buffer_type()
+        self.buffer = self.string_type()
         mode = tty.tcgetattr(self.STDIN_FILENO)
         tty.setraw(self.STDIN_FILENO)
         if escape_character is not None and PY3:
